@@ -297,23 +297,25 @@ Proof.
 Qed.
 
 Lemma file_conv_enc_not_frame tb f ew o :
-  f <> FChargeFrame -> file_conv (enc tb f ew o) = backend_conv (enc tb f ew o).
+  f <> FChargeFrame -> file_conv tb (enc tb f ew o) = backend_conv (enc tb f ew o).
 Proof.
   intros Hf. destruct f; try congruence; destruct o as [[?|?|? ?]|]; reflexivity.
 Qed.
 
 Lemma dec_enc_file tb T f ew er o :
   header_ok tb T = true -> esc_cond f ew er = true ->
-  wf_shape T f o -> restr_file f o ->
-  dec tb f er (file_conv (enc tb f ew o)) = o.
+  wf_shape T f o -> restr_file tb f o ->
+  dec tb f er (file_conv tb (enc tb f ew o)) = o.
 Proof.
   intros Hh He Hs [Hr Hi].
   destruct f;
     try (rewrite file_conv_enc_not_frame by discriminate; eapply dec_enc_dict; eassumption).
   (* the cluster table *)
-  destruct o as [p|]; [|reflexivity].
+  destruct o as [p|]; [|simpl; destruct (t_frame_index_kept tb); reflexivity].
   destruct Hs as [_ Hs]. destruct p; simpl in Hs; try contradiction.
-  simpl. rewrite <- Hi. destruct idx; [contradiction|reflexivity].
+  simpl. destruct Hi as [Hi|Hi].
+  - rewrite Hi. destruct idx; [contradiction|reflexivity].
+  - rewrite <- Hi. destruct (t_frame_index_kept tb); (destruct idx; [contradiction|reflexivity]).
 Qed.
 
 (* nothing that was written is unreadable (Dataset.from_dict does not raise) *)
@@ -338,7 +340,7 @@ Proof.
 Qed.
 
 Lemma enc_readable_file tb T f ew o :
-  wf_shape T f o -> restr_dict f o -> dval_readable (file_conv (enc tb f ew o)) = true.
+  wf_shape T f o -> restr_dict f o -> dval_readable (file_conv tb (enc tb f ew o)) = true.
 Proof.
   intros Hs Hr. destruct f;
     try (rewrite file_conv_enc_not_frame by discriminate; eapply enc_readable_dict; eassumption).
@@ -399,7 +401,8 @@ Proof.
 Qed.
 
 Definition strict_dict (T : dkind) (f : field) (o : option payload) : Prop := wf_shape T f o /\ restr_dict f o.
-Definition strict_file (T : dkind) (f : field) (o : option payload) : Prop := wf_shape T f o /\ restr_file f o.
+Definition strict_file (tb : tables) (T : dkind) (f : field) (o : option payload) : Prop :=
+  wf_shape T f o /\ restr_file tb f o.
 
 Lemma wf_shape_not_applicable T f o : applicable T f = false -> wf_shape T f o -> o = None.
 Proof. destruct o; simpl; [|reflexivity]. intros A [B _]. congruence. Qed.
@@ -418,7 +421,7 @@ Qed.
 
 (* file route: from_dict (from_asdf (to_asdf (to_dict d))) = d on the containers `fs` *)
 Theorem codec_sound_file tb T fs :
-  codec_ok tb T fs = true -> roundtrip_on via_file strict_file tb T fs.
+  codec_ok tb T fs = true -> roundtrip_on (via_file tb) (strict_file tb) tb T fs.
 Proof.
   intros Hok. apply codec_sound_gen; auto.
   - intros f ew er o A [Hs Hr] He.
@@ -430,8 +433,32 @@ Qed.
 
 (* every subset of initialised containers is covered: the hypothesis of roundtrip_on is satisfied by the
    detector with NO container initialised and is independent for each container *)
-Lemma strict_none T f : strict_file T f None.
+Lemma strict_none tb T f : strict_file tb T f None.
 Proof. repeat split. Qed.
+
+(* once the backend keeps the row labels, the file route needs nothing beyond the dictionary route *)
+Theorem codec_sound_file_kept tb T fs :
+  t_frame_index_kept tb = true ->
+  codec_ok tb T fs = true -> roundtrip_on (via_file tb) strict_dict tb T fs.
+Proof.
+  intros Hk Hok d Hd HP.
+  apply (codec_sound_file tb T fs Hok d Hd).
+  intros f. destruct (HP f) as [Hs Hr]. split; [exact Hs|]. split; [exact Hr|].
+  destruct (d_cont d f) as [[?|?|? ?]|]; auto.
+Qed.
+
+(* save_detector; ...; load_detector: the later models see the saved containers *)
+Theorem load_sees_saved tb T fs :
+  t_frame_index_kept tb = true -> codec_ok tb T fs = true ->
+  (forall f, existsb (field_eqb f) (t_load_assigned tb) = true) ->
+  forall d running, d_kind d = T -> (forall f, strict_dict T f (d_cont d f)) ->
+  exists loaded, from_dict tb (via_file tb (to_dict tb d)) = Some loaded /\
+                 forall f, In f fs -> d_cont (load_detector_effect tb running loaded) f = d_cont d f.
+Proof.
+  intros Hk Hok Hall d running Hd HP.
+  destruct (codec_sound_file_kept tb T fs Hk Hok d Hd HP) as [l [E [_ [_ Q]]]].
+  exists l. split; [exact E|]. intros f Hin. simpl. rewrite (Hall f). apply Q; exact Hin.
+Qed.
 
 (* ---------------------------------------------------------------- load_detector *)
 Theorem load_replaces_iff tb :
